@@ -47,6 +47,8 @@ def run(R, tier, seed, driver_ok):
         for stream in ['train', 'far', 'dup', 'kernel', 'int']:
             if stream == 'int':
                 P = np.round(zoo.query_points(rng, X, L, npair, 'train')[:, :2] * 4)
+                if rng.rand() < 0.5:
+                    P = np.abs(P) % 200          # non-negative values, so that unsigned dtypes can hold the same numbers
             else:
                 P = zoo.query_points(rng, X, L, npair, stream)[:, :2]
             P = np.ascontiguousarray(P)
@@ -73,8 +75,15 @@ def run(R, tier, seed, driver_ok):
             if stream == 'int':
                 variants['int'] = P.astype(np.int64)
                 variants['int32'] = P.astype(np.int32)
+                if P.min() >= 0 and P.max() < 256:
+                    variants['uint8'] = P.astype(np.uint8)
+                    variants['uint16'] = P.astype(np.uint16)
             for vn, V in variants.items():
                 pv = est.pair_distance(V)
+                if vn.startswith('uint'):
+                    mv = np.array([float(metric(V[i, 0], V[i, 1])) for i in range(len(V))])
+                    if np.abs(mv - pd).max() > 1e-9 * (normL * np.abs(P).max() + 1e-300):
+                        R.violation(f'arraylike-get_metric-{vn}', f'{label}: get_metric differs for {vn} input', {'est': label, 'L': L, 'pairs': P})
                 if pv.shape != pd.shape or np.abs(pv - pd).max() > 1e-12 * (normL * np.abs(P).max() + 1e-300):
                     R.violation(f'arraylike-{vn}', f'{label}: pair_distance differs for {vn} input', {'est': label, 'L': L, 'pairs': P})
                 tv = est.transform(V[:, 0] if not isinstance(V, list) else [p[0] for p in V])
